@@ -8,7 +8,7 @@ real EoReader over the writer's output.
 import importlib
 
 from ..core import Result, Trace
-from ..gen.values import gen_string, gen_int_in_range
+from ..gen.values import gen_string, gen_int_in_range, StringPool
 
 ID = "C04"
 LEVEL = "exploration"
@@ -28,7 +28,7 @@ COMPONENTS = {
     "real": ["eolib.data.EoWriter", "eolib.data.EoReader", "number and string codecs"],
     "stub_or_harness": ["history generator", "expected-value computation"],
 }
-PROBES = ["perfect_fit_padded", "empty_string", "non_cp1252_character", "int_at_max", "trailing_unbounded_string",
+PROBES = ["same_string_written_again", "perfect_fit_padded", "empty_string", "non_cp1252_character", "int_at_max", "trailing_unbounded_string",
           "y_diaeresis_in_unpadded_string", "empty_padded_string"]
 
 INT_KINDS = ["char", "short", "three", "int"]
@@ -42,6 +42,7 @@ def generate(streams, tier):
     vr = streams.get("values")
     n = rng.randrange(1, 41)
     ops = []
+    pool = StringPool(vr)
     for i in range(n):
         r = rng.random()
         if r < 0.08:
@@ -54,12 +55,12 @@ def generate(streams, tier):
         else:
             enc = rng.random() < 0.5
             padded = rng.random() < 0.5
-            s = gen_string(vr, allow_y=not padded, allow_tilde=not enc)
+            s = pool.get(vr, allow_y=not padded, allow_tilde=not enc)
             length = len(s) + (rng.choice([0, 0, 1, 2, 7]) if padded else 0)
             ops.append(["fixed_encoded" if enc else "fixed", s, length, padded])
     if rng.random() < 0.5:
         enc = rng.random() < 0.5
-        ops.append(["tail_encoded" if enc else "tail", gen_string(vr, allow_tilde=not enc)])
+        ops.append(["tail_encoded" if enc else "tail", pool.get(vr, allow_tilde=not enc)])
     return {"ops": ops}
 
 
@@ -106,6 +107,8 @@ def execute(plan, env):
             return fail("write-raised", k, f"step {step}: valid write {o!r} raised {type(e).__name__}: {e}", step)
         if k in ("fixed", "fixed_encoded", "tail", "tail_encoded"):
             s = o[1]
+            if s and any(isinstance(p[1], str) and p[1] == s for p in ops[:step]):
+                res.count("probe.same_string_written_again")
             if not s:
                 res.count("probe.empty_string")
                 if len(o) > 3 and o[3] and o[2] > 0:
